@@ -19,6 +19,8 @@ pub enum Mode {
     Query,
     /// Data documents that have an index: region queries of the (mutated) data with the valid index.
     QueryData,
+    /// The format's ASYNC reader (vnd::adrive: one API per format) over the mutated bytes.
+    Async,
 }
 
 impl Mode {
@@ -27,6 +29,7 @@ impl Mode {
             Mode::Read(a) => format!("{a:?}"),
             Mode::Query => "Query".into(),
             Mode::QueryData => "QueryData".into(),
+            Mode::Async => "Async".into(),
         }
     }
 }
@@ -110,6 +113,32 @@ pub const NUMERALS: [&str; 22] = [
     "05",
     "",
 ];
+
+/// Multibyte-character family: one ASCII byte of a token replaced by a 2-byte and a 3-byte UTF-8 character (single
+/// byte substitutions cannot produce a valid multibyte character). Slots per token: (first byte | last byte) x (é | €).
+pub const MULTIBYTE: [&str; 2] = ["\u{e9}", "\u{20ac}"];
+pub const MB_SLOTS: u64 = 4;
+
+/// Tokens of a text: maximal runs of bytes that are not one of the structural delimiters of the text formats, as
+/// `(offset << 16) | length`.
+pub fn text_tokens(b: &[u8]) -> Vec<usize> {
+    let delim = |c: u8| matches!(c, b'\t' | b'\n' | b'\r' | b' ' | b',' | b';' | b':' | b'=' | b'|' | b'/' | b'<' | b'>' | b'"' | b'(' | b')' | b'[' | b']' | b'@' | b'#' | b'+' | b'.');
+    let mut out = Vec::new();
+    let mut i = 0;
+    while i < b.len() {
+        if delim(b[i]) {
+            i += 1;
+            continue;
+        }
+        let s = i;
+        while i < b.len() && !delim(b[i]) {
+            i += 1;
+        }
+        // a token of a noodles-written document longer than this is a sequence / quality string: its ends suffice
+        out.push((s << 16) | (i - s).min(65535));
+    }
+    out
+}
 
 /// Decimal numeral tokens of a text: maximal digit runs, with a leading `-` when that follows a delimiter.
 /// Returned as `(offset << 16) | length`.
@@ -321,6 +350,8 @@ pub struct Plan {
     pub fields: Table,
     /// Numeral-extremes stage: `cuts` holds the tokens of the row's layer (see `numeral_tokens`).
     pub nums: Table,
+    /// Multibyte-character stage: `cuts` holds the tokens of the row's layer (see `text_tokens`).
+    pub mbs: Table,
     /// Number of substitution values per byte.
     pub n_sub: u64,
     pub codecs: Vec<Codec>,
@@ -340,6 +371,7 @@ pub const ST_CODEC_ALL: u32 = 3;
 pub const ST_CODEC_MUT: u32 = 4;
 pub const ST_NEST: u32 = 5;
 pub const ST_NUM: u32 = 6;
+pub const ST_MB: u32 = 7;
 
 fn layer_len(d: &Doc, layer: Layer) -> usize {
     match layer {
@@ -387,6 +419,7 @@ impl Plan {
         let mut subst = Vec::new();
         let mut fields = Vec::new();
         let mut nums = Vec::new();
+        let mut mbs = Vec::new();
         for (i, d) in docs.iter().enumerate() {
             // documents with a single record larger than a BGZF block: truncations (within 64 bytes of member / record
             // boundaries and every 251st byte) and field mutations only
@@ -434,6 +467,10 @@ impl Plan {
                 continue;
             }
             let mut modes: Vec<Mode> = Api::all_for(d.format).iter().map(|a| Mode::Read(*a)).collect();
+            // async readers: the index formats in both tiers (small documents), the data formats in the thorough tier
+            if vnd::adrive::has_async(d.format) && (thorough || d.format.is_index()) {
+                modes.push(Mode::Async);
+            }
             if matches!(d.format, Format::Bai | Format::Csi | Format::Tbi | Format::Crai | Format::Fai) && d.index_of.is_some() && others[i].is_some() {
                 modes.push(Mode::Query);
             }
@@ -474,6 +511,17 @@ impl Plan {
                             nums.push(Row { doc: i, layer, mode, n: toks.len() as u64 * NUMERALS.len() as u64, n_sub: 6, cuts: Some(Arc::new(toks)) });
                         }
                     }
+                    // multibyte characters: every text document (FASTA / FASTQ included), text index and text layer
+                    if is_text && (thorough || !twin) {
+                        let base: &[u8] = match layer {
+                            Layer::Outer => &d.bytes,
+                            Layer::Inner => &d.inner.as_ref().unwrap().bytes,
+                        };
+                        let toks = text_tokens(base);
+                        if !toks.is_empty() {
+                            mbs.push(Row { doc: i, layer, mode, n: toks.len() as u64 * MB_SLOTS, n_sub: 6, cuts: Some(Arc::new(toks)) });
+                        }
+                    }
                     // ... and the header text inside BAM / BCF (SAM / VCF header lines; l_text follows the change)
                     if matches!(d.format, Format::Bam | Format::Bcf) && layer == Layer::Inner && matches!(mode, Mode::Read(_)) && (thorough || !twin) {
                         let inner = &d.inner.as_ref().unwrap().bytes;
@@ -483,6 +531,10 @@ impl Plan {
                                 let toks: Vec<usize> = numeral_tokens(&inner[at + 4..at + 4 + l_text]).into_iter().map(|t| t + ((at + 4) << 16)).collect();
                                 if !toks.is_empty() {
                                     nums.push(Row { doc: i, layer, mode, n: toks.len() as u64 * NUMERALS.len() as u64, n_sub: 6, cuts: Some(Arc::new(toks)) });
+                                }
+                                let toks: Vec<usize> = text_tokens(&inner[at + 4..at + 4 + l_text]).into_iter().map(|t| t + ((at + 4) << 16)).collect();
+                                if !toks.is_empty() {
+                                    mbs.push(Row { doc: i, layer, mode, n: toks.len() as u64 * MB_SLOTS, n_sub: 6, cuts: Some(Arc::new(toks)) });
                                 }
                             }
                         }
@@ -548,7 +600,7 @@ impl Plan {
                 nest_cases.push(NestCase { entry, leaf: nest::Leaf::Zeros, depth: 1_000, stack: 8 << 20 });
             }
         }
-        Self { thorough, docs, others, prep, trunc: Table::new(trunc), subst: Table::new(subst), fields: Table::new(fields), nums: Table::new(nums), n_sub, codecs, max_len, streams, stream_starts, stream_total: t, nest: nest_cases, nest_target }
+        Self { thorough, docs, others, prep, trunc: Table::new(trunc), subst: Table::new(subst), fields: Table::new(fields), nums: Table::new(nums), mbs: Table::new(mbs), n_sub, codecs, max_len, streams, stream_starts, stream_total: t, nest: nest_cases, nest_target }
     }
 
     fn strings_total(&self) -> u64 {
@@ -643,6 +695,52 @@ impl Plan {
                 };
                 let v = self.sub_value(orig, j, row.n_sub)?;
                 Some((row, self.patched(row, off, &[v]), format!("byte {off}: {orig:#04x} -> {v:#04x}")))
+            }
+            ST_MB => {
+                let (row, r) = self.mbs.locate(case);
+                let d = &self.docs[row.doc];
+                let tok = row.cuts.as_ref()?[(r / MB_SLOTS) as usize];
+                let (toff, tlen) = (tok >> 16, tok & 0xffff);
+                let slot = r % MB_SLOTS;
+                if slot >= 2 && tlen < 2 {
+                    return None;
+                }
+                let off = if slot < 2 { toff } else { toff + tlen - 1 };
+                let v = MULTIBYTE[(slot % 2) as usize];
+                let base: &[u8] = match row.layer {
+                    Layer::Outer => &d.bytes,
+                    Layer::Inner => &d.inner.as_ref().unwrap().bytes,
+                };
+                if !base[off].is_ascii() {
+                    return None;
+                }
+                let mut spliced = Vec::with_capacity(base.len() + 4);
+                spliced.extend_from_slice(&base[..off]);
+                spliced.extend_from_slice(v.as_bytes());
+                spliced.extend_from_slice(&base[off + 1..]);
+                if matches!(d.format, Format::Bam | Format::Bcf) {
+                    let at = if d.format == Format::Bam { 4 } else { 5 };
+                    let l = vnd::walk::le_u32(base, at)? + v.len() - 1;
+                    spliced[at..at + 4].copy_from_slice(&(l as u32).to_le_bytes());
+                }
+                let ls = base[..off].iter().rposition(|&c| c == b'\n').map(|p| p + 1).unwrap_or(0);
+                let what = format!(
+                    "byte {off} ({:?}, the {} byte of the token {:?}; line {:?}, column {}) -> {v:?} ({} bytes of UTF-8)",
+                    base[off] as char,
+                    if slot < 2 { "first" } else { "last" },
+                    String::from_utf8_lossy(&base[toff..toff + tlen.min(40)]),
+                    String::from_utf8_lossy(&base[ls..(ls + 40).min(base.len())]).split('\n').next().unwrap_or(""),
+                    base[ls..off].iter().filter(|&&c| c == b'\t').count() + 1,
+                    v.len()
+                );
+                let bytes = match row.layer {
+                    Layer::Outer => spliced,
+                    Layer::Inner => match &self.prep[row.doc] {
+                        Some(p) => p.rebuilt(&spliced),
+                        None => mutate::gzip(&spliced),
+                    },
+                };
+                Some((row, bytes, what))
             }
             ST_NUM => {
                 let (row, r) = self.nums.locate(case);
@@ -769,6 +867,11 @@ pub fn exec_doc(format: Format, set: &str, mode: Mode, bed_n: usize, raw: bool, 
             o.raw = raw;
             vnd::read_log(format, bytes, &o)
         }
+        (Mode::Async, _) => {
+            let mut o = Opts::new(bytes.len().max(len_hint)).api(Api::Eager);
+            o.vpos = false;
+            vnd::adrive::read_log_async(format, bytes, &o).unwrap_or_else(|| vec!["end: EOF".into()])
+        }
         // bytes = mutated index, other = valid data
         (Mode::Query, Some(o)) => query_log(o.format, &o.set, &o.bytes, format, bytes),
         // bytes = mutated data, other = valid index
@@ -812,19 +915,49 @@ pub fn payload_doc(format: Format, set: &str, mode: Mode, bed_n: usize, raw: boo
 
 impl Stages for Plan {
     fn n_stages(&self) -> u32 {
-        7
+        8
+    }
+    fn norm_panic_msg(&self, stage: u32, msg: &str) -> String {
+        if stage != ST_MB {
+            return vmc::normalise_msg(msg);
+        }
+        // the slicing panics quote the input (`é/1`, 'é'): collapse quoted segments and non-ASCII characters so that
+        // the fingerprint names the failure, not the value
+        let mut out = String::new();
+        let mut quote: Option<char> = None;
+        for c in msg.chars() {
+            match quote {
+                Some(q) => {
+                    if c == q {
+                        quote = None;
+                    }
+                }
+                None => {
+                    if c == '`' || c == '\'' {
+                        quote = Some(c);
+                        out.push('Q');
+                    } else if !c.is_ascii() {
+                        out.push('U');
+                    } else {
+                        out.push(c);
+                    }
+                }
+            }
+        }
+        vmc::normalise_msg(&out)
     }
     fn order(&self) -> Vec<u32> {
         // the (small) nesting stage first: a time cap must not cut it
-        vec![ST_NEST, ST_NUM, ST_TRUNC, ST_SUBST, ST_FIELDS, ST_CODEC_ALL, ST_CODEC_MUT]
+        vec![ST_NEST, ST_NUM, ST_MB, ST_TRUNC, ST_SUBST, ST_FIELDS, ST_CODEC_ALL, ST_CODEC_MUT]
     }
     fn stage_name(&self, stage: u32) -> String {
-        ["truncations", "substitutions", "fields", "codec_strings", "codec_streams", "nesting", "numerals"][stage as usize].to_string()
+        ["truncations", "substitutions", "fields", "codec_strings", "codec_streams", "nesting", "numerals", "multibyte"][stage as usize].to_string()
     }
     fn stage_len(&self, stage: u32) -> u64 {
         match stage {
             ST_NEST => self.nest.len() as u64,
             ST_NUM => self.nums.total,
+            ST_MB => self.mbs.total,
             ST_TRUNC => self.trunc.total,
             ST_SUBST => self.subst.total,
             ST_FIELDS => self.fields.total,
@@ -918,6 +1051,7 @@ impl Stages for Plan {
             ST_TRUNC => self.trunc.locate(case).0,
             ST_SUBST => self.subst.locate(case).0,
             ST_NUM => self.nums.locate(case).0,
+            ST_MB => self.mbs.locate(case).0,
             _ => self.fields.locate(case).0,
         };
         let d = &self.docs[row.doc];
